@@ -81,6 +81,7 @@ register_class(
         _valid=TBool,
         _storage_pos_sorted_by_ts=LInt,
         _S=LPt,  # GHOST (model field): the storage view this index represents
+        _R=TSet(TInt),  # GHOST: positions removed but not yet renumbered (between remove and update)
     ),
 )
 register_class("IndexResult", "tinyflux.index", dict(_items=SInt, _index_count=TInt))
@@ -115,28 +116,30 @@ def same_elems(new, old):
 # -------------------------------------------------- representation invariant
 
 
-def repr_meas(M, n, P):
+def repr_meas(M, n, P, keep=None, only=None):
     """Measurement postings of index field M represent the view (n, P)."""
     m = z3.Const(fresh_name("m"), _str)
     j, k, i = z3.Int(fresh_name("j")), z3.Int(fresh_name("k")), z3.Int(fresh_name("i"))
     dom, val = d_dom(M.t), d_val(M.t)
     lst = lambda mm: z3.Select(val, mm)
+    keep = keep or (lambda e: z3.BoolVal(True))
+    only = only or (lambda mm: z3.BoolVal(True))
     return [
-        ("meas_nonempty", z3.ForAll([m], z3.Implies(z3.Select(dom, m), l_len(lst(m)) > 0), patterns=[z3.Select(dom, m)])),
+        ("meas_nonempty", z3.ForAll([m], z3.Implies(z3.Select(dom, m), z3.And(only(m), l_len(lst(m)) > 0)), patterns=[z3.Select(dom, m)])),
         ("meas_sound", z3.ForAll([m, j], z3.Implies(z3.And(z3.Select(dom, m), 0 <= j, j < l_len(lst(m))),
-                                                     z3.And(0 <= l_at(lst(m), j), l_at(lst(m), j) < n, meas(P(l_at(lst(m), j))) == m)),
+                                                     z3.And(0 <= l_at(lst(m), j), l_at(lst(m), j) < n, keep(l_at(lst(m), j)), meas(P(l_at(lst(m), j))) == m)),
                                  patterns=[l_at(lst(m), j)])),
         ("meas_ascending", z3.ForAll([m, j, k], z3.Implies(z3.And(z3.Select(dom, m), 0 <= j, j < k, k < l_len(lst(m))),
                                                            l_at(lst(m), j) < l_at(lst(m), k)),
                                      patterns=[z3.MultiPattern(l_at(lst(m), j), l_at(lst(m), k))])),
-        ("meas_complete", z3.ForAll([i], z3.Implies(z3.And(0 <= i, i < n),
+        ("meas_complete", z3.ForAll([i], z3.Implies(z3.And(0 <= i, i < n, S.Tr(i), keep(i), only(meas(P(i)))),
                                                     z3.And(z3.Select(dom, meas(P(i))),
                                                            z3.Exists([j], z3.And(0 <= j, j < l_len(lst(meas(P(i)))), l_at(lst(meas(P(i))), j) == i)))),
                                     patterns=[P(i)])),
     ]
 
 
-def repr_tags(T, n, P):
+def repr_tags(T, n, P, keep=None, only=None):
     k = z3.Const(fresh_name("k"), _str)
     v = z3.Const(fresh_name("v"), sort_of(TagV))
     j, j2, i = z3.Int(fresh_name("j")), z3.Int(fresh_name("j2")), z3.Int(fresh_name("i"))
@@ -145,38 +148,42 @@ def repr_tags(T, n, P):
     idom = lambda kk, vv: z3.Select(d_dom(inner(kk)), vv)
     lst = lambda kk, vv: z3.Select(d_val(inner(kk)), vv)
     present = lambda kk, vv: z3.And(z3.Select(dom, kk), idom(kk, vv))
+    keep = keep or (lambda e: z3.BoolVal(True))
+    only = only or (lambda kk, vv: z3.BoolVal(True))
     return [
         ("tags_no_empty_inner", z3.ForAll([k], z3.Implies(z3.Select(dom, k), z3.Exists([v], idom(k, v))), patterns=[z3.Select(dom, k)])),
-        ("tags_nonempty", z3.ForAll([k, v], z3.Implies(present(k, v), l_len(lst(k, v)) > 0), patterns=[idom(k, v)])),
+        ("tags_nonempty", z3.ForAll([k, v], z3.Implies(present(k, v), z3.And(only(k, v), l_len(lst(k, v)) > 0)), patterns=[idom(k, v)])),
         ("tags_sound", z3.ForAll([k, v, j], z3.Implies(z3.And(present(k, v), 0 <= j, j < l_len(lst(k, v))),
-                                                       z3.And(0 <= l_at(lst(k, v), j), l_at(lst(k, v), j) < n,
+                                                       z3.And(0 <= l_at(lst(k, v), j), l_at(lst(k, v), j) < n, keep(l_at(lst(k, v), j)),
                                                               has_tag(P(l_at(lst(k, v), j)), k), tag(P(l_at(lst(k, v), j)), k) == v)),
                                  patterns=[l_at(lst(k, v), j)])),
         ("tags_ascending", z3.ForAll([k, v, j, j2], z3.Implies(z3.And(present(k, v), 0 <= j, j < j2, j2 < l_len(lst(k, v))),
                                                                l_at(lst(k, v), j) < l_at(lst(k, v), j2)),
                                      patterns=[z3.MultiPattern(l_at(lst(k, v), j), l_at(lst(k, v), j2))])),
-        ("tags_complete", z3.ForAll([i, k], z3.Implies(z3.And(0 <= i, i < n, has_tag(P(i), k)),
+        ("tags_complete", z3.ForAll([i, k], z3.Implies(z3.And(0 <= i, i < n, S.Tr(i), keep(i), has_tag(P(i), k), only(k, tag(P(i), k))),
                                                        z3.And(present(k, tag(P(i), k)),
                                                               z3.Exists([j], z3.And(0 <= j, j < l_len(lst(k, tag(P(i), k))), l_at(lst(k, tag(P(i), k)), j) == i)))),
                                     patterns=[has_tag(P(i), k)])),
     ]
 
 
-def repr_fields(F, n, P):
+def repr_fields(F, n, P, keep=None, only=None):
     k = z3.Const(fresh_name("k"), _str)
     j, j2, i = z3.Int(fresh_name("j")), z3.Int(fresh_name("j2")), z3.Int(fresh_name("i"))
     dom = d_dom(F.t)
     lst = lambda kk: z3.Select(d_val(F.t), kk)
     pos = lambda kk, jj: t_get(l_at(lst(kk), jj), 0)
     fv = lambda kk, jj: t_get(l_at(lst(kk), jj), 1)
+    keep = keep or (lambda e: z3.BoolVal(True))
+    only = only or (lambda kk: z3.BoolVal(True))
     return [
-        ("fields_nonempty", z3.ForAll([k], z3.Implies(z3.Select(dom, k), l_len(lst(k)) > 0), patterns=[z3.Select(dom, k)])),
+        ("fields_nonempty", z3.ForAll([k], z3.Implies(z3.Select(dom, k), z3.And(only(k), l_len(lst(k)) > 0)), patterns=[z3.Select(dom, k)])),
         ("fields_sound", z3.ForAll([k, j], z3.Implies(z3.And(z3.Select(dom, k), 0 <= j, j < l_len(lst(k))),
-                                                      z3.And(0 <= pos(k, j), pos(k, j) < n, has_fld(P(pos(k, j)), k), fv(k, j) == fld(P(pos(k, j)), k))),
+                                                      z3.And(0 <= pos(k, j), pos(k, j) < n, keep(pos(k, j)), has_fld(P(pos(k, j)), k), fv(k, j) == fld(P(pos(k, j)), k))),
                                    patterns=[l_at(lst(k), j)])),
         ("fields_ascending", z3.ForAll([k, j, j2], z3.Implies(z3.And(z3.Select(dom, k), 0 <= j, j < j2, j2 < l_len(lst(k))), pos(k, j) < pos(k, j2)),
                                        patterns=[z3.MultiPattern(l_at(lst(k), j), l_at(lst(k), j2))])),
-        ("fields_complete", z3.ForAll([i, k], z3.Implies(z3.And(0 <= i, i < n, has_fld(P(i), k)),
+        ("fields_complete", z3.ForAll([i, k], z3.Implies(z3.And(0 <= i, i < n, S.Tr(i), keep(i), has_fld(P(i), k), only(k)),
                                                          z3.And(z3.Select(dom, k), z3.Exists([j], z3.And(0 <= j, j < l_len(lst(k)), pos(k, j) == i)))),
                                       patterns=[has_fld(P(i), k)])),
     ]
@@ -195,6 +202,24 @@ def repr_time(TS, POS, n, P):
         ("time_pos_onto", z3.ForAll([i], z3.Implies(z3.And(0 <= i, i < n, S.Tr(i)), z3.Exists([j], z3.And(0 <= j, j < n, l_at(p, j) == i))),
                                     patterns=[S.Tr(i), P(i)])),
         ("time_values", z3.ForAll([j], z3.Implies(z3.And(0 <= j, j < n), l_at(t, j) == ts(P(l_at(p, j)))), patterns=[l_at(t, j)])),
+    ]
+
+
+def sparse_time(TS, POS, n, P, keep):
+    """Time lists after removal, before renumbering: positions are the kept old ones."""
+    j, j2, i = z3.Int(fresh_name("j")), z3.Int(fresh_name("j2")), z3.Int(fresh_name("i"))
+    t, p = TS.t, POS.t
+    m = l_len(p)
+    return [
+        ("time_lengths", l_len(t) == m),
+        ("time_sorted", z3.ForAll([j, j2], z3.Implies(z3.And(0 <= j, j <= j2, j2 < m), l_at(t, j) <= l_at(t, j2)),
+                                  patterns=[z3.MultiPattern(l_at(t, j), l_at(t, j2))])),
+        ("time_pos_range", z3.ForAll([j], z3.Implies(z3.And(0 <= j, j < m), z3.And(0 <= l_at(p, j), l_at(p, j) < n, keep(l_at(p, j)))), patterns=[l_at(p, j)])),
+        ("time_pos_injective", z3.ForAll([j, j2], z3.Implies(z3.And(0 <= j, j < j2, j2 < m), l_at(p, j) != l_at(p, j2)),
+                                         patterns=[z3.MultiPattern(l_at(p, j), l_at(p, j2))])),
+        ("time_pos_onto", z3.ForAll([i], z3.Implies(z3.And(0 <= i, i < n, keep(i), S.Tr(i)), z3.Exists([j], z3.And(0 <= j, j < m, l_at(p, j) == i))),
+                                    patterns=[S.Tr(i), P(i)])),
+        ("time_values", z3.ForAll([j], z3.Implies(z3.And(0 <= j, j < m), l_at(t, j) == ts(P(l_at(p, j)))), patterns=[l_at(t, j)])),
     ]
 
 
@@ -224,3 +249,21 @@ def view_of(ix):
 def repr_self(ix, parts=("num", "meas", "tags", "fields", "time")):
     n, P = view_of(ix)
     return [("view_len", n >= 0)] + repr_all(ix, n, P, parts)
+
+
+# ---------------------------------------------------------------- assumed lemmas
+
+
+def pigeonhole(a, b, g):
+    """ASSUMED mathematical lemma instance: an injection [0,a) -> [0,b) implies a <= b."""
+    j, k = z3.Int(fresh_name("j")), z3.Int(fresh_name("k"))
+    inj = z3.ForAll([j, k], z3.Implies(z3.And(0 <= j, j < k, k < a), g(j) != g(k)))
+    rng = z3.ForAll([j], z3.Implies(z3.And(0 <= j, j < a), z3.And(0 <= g(j), g(j) < b)))
+    return z3.Implies(z3.And(inj, rng), a <= b)
+
+
+def pigeonhole_onto(a, b, g):
+    """ASSUMED mathematical lemma instance: a surjection [0,a) ->> [0,b) implies b <= a."""
+    j, p = z3.Int(fresh_name("j")), z3.Int(fresh_name("p"))
+    onto = z3.ForAll([p], z3.Implies(z3.And(0 <= p, p < b, S.Tr(p)), z3.Exists([j], z3.And(0 <= j, j < a, g(j) == p))))
+    return z3.Implies(z3.And(onto, b >= 0, a >= 0), b <= a)
